@@ -390,7 +390,47 @@ class SharedOptionsNotWritten(_c13.KnownToFail):
     prop = "C14"
 
 
-CONTRACTS = [Reestablished(), InitialisedBeforeRead(), SharedOptionsNotWritten()]
+class SameAnswerTheSecondTime(Contract):
+    """History-independence in miniature: alter_scenario_if_known_to_fail called twice in one process with equal
+    arguments (fresh dictionaries, arbitrary option strings and country code) gives equal answers - whatever it keeps
+    at module or class level must not be consumed by the first call."""
+    prop = "C14"
+    file = RS
+    func = "ScenarioRunner.alter_scenario_if_known_to_fail"
+    name = "a_second_call_with_the_same_arguments_gives_the_same_answer"
+    replayable = False
+    max_paths = 4000
+
+    def inputs(self, S):
+        from contracts.C13 import BASE
+        keys = ("cull", "scenario", "shutoff", "crop_disruption", "meat_strategy", "ratio_stocks_untouched")
+        vals = {k: unwrap(S.str("opt_" + k)) for k in keys}
+        o1, o2 = dict(BASE), dict(BASE)
+        o1.update(vals)
+        o2.update(vals)
+        iso3 = S.str("iso3")
+        r1, r2 = S.obj(RS, "ScenarioRunner"), S.obj(RS, "ScenarioRunner")
+        return dict(calls=[dict(func=self.func, args=[r1, o1, iso3]), dict(func=self.func, args=[r2, o2, iso3])], keys=list(o1.keys()))
+
+    def ensures(self, S, a, res):
+        import ast as _ast
+        r1, r2 = unwrap(res)
+        I = S.I
+        same = [V(isinstance(r1, dict) and isinstance(r2, dict) and set(r1.keys()) == set(r2.keys()))]
+        if same[0].v:
+            same += [V(I.truth(I.compare(_ast.Eq(), r1[k], r2[k]))) for k in r1]
+        return {"second_answer_equals_the_first": And(*same)}
+
+
+def _c10_resettings():
+    from contracts import C10
+    from contracts.common import relabelled
+    return relabelled([c for c in C10.CONTRACTS if type(c).__name__ == "Resettings"], "C14")
+
+
+# (the conversion tables follow the CURRENT settings only, whatever was converted under earlier settings: C10's
+# contract, re-run under this property - a memo keyed on part of the settings would survive into the next run)
+CONTRACTS = [Reestablished(), InitialisedBeforeRead(), SharedOptionsNotWritten(), SameAnswerTheSecondTime()] + _c10_resettings()
 EXTRA = [persistent_writes, class_level_mutables, files_written_are_never_read, first_thing_a_run_does]
 TRUSTED = [
     "CBC, numpy and pandas are deterministic functions of their inputs; the data files are not modified between runs",
